@@ -1297,6 +1297,8 @@ fn main() {
             let op = prop_oneof![
                 3 => delta_spec().prop_map(wb::WbOp::Push),
                 2 => proptest::collection::vec(delta_spec(), 0..4).prop_map(|during| wb::WbOp::Flush { during }),
+                1 => (proptest::collection::vec(delta_spec(), 1..3), proptest::collection::vec(delta_spec(), 0..2))
+                    .prop_map(|(between, during_b)| wb::WbOp::Overlap { between, during_b }),
             ];
             proptest::collection::vec(op, 2..10).prop_map(|ops| wb::WbCase { ops })
         },
